@@ -1,0 +1,31 @@
+//go:build verif
+
+package gc
+
+// Contracts checked by /verif/gocv (comment-only file; see /verif/DESIGN.md §3).
+//
+// C08. The garbage collector removes a part from its store only after the registry condemned that very part in the same
+// pass (Condemn succeeds only for a part without references), and its registry corrections follow the reconciliation
+// observation of that part (the reference count is set to the number of part rows that actually name the part; a
+// registry row is deleted only when no row names the part).
+
+// The condemn-and-delete batch (one transaction per 256 candidates).
+//@ func (*partGC).runGCWithContext$5
+//@ mode effects
+//@ effect[C08:deleted-only-after-condemned] every store.DeletePart(_, _, $id)
+//@     needs before partGC.partRegistryRepository.Condemn(_, _, $cid) -> ($c, $e)
+//@     where $c && $e == nil && $cid == $id
+//@ effect[C08:index-entry-dropped-only-after-condemned] every partGC.partDedupIndexRepository.DeleteByPartIds(_, _, $ids)
+//@     needs before partGC.partRegistryRepository.Condemn(_, _, $cid) -> ($c, $e)
+//@     where $c && $e == nil && len($ids) == 1 && $ids[0] == $cid
+//@ effect[C08:condemn-in-the-batch-transaction] every partGC.partRegistryRepository.Condemn(_, $s, _) needs before tx.SqlTx() -> ($r) where $s == $r
+
+// The reconciliation batch.
+//@ func (*partGC).runGCWithContext$2
+//@ mode effects
+//@ effect[C08:refcount-set-to-the-observed-count] every partGC.partRegistryRepository.UpdateRefCount(_, _, $id, $n, $v)
+//@     where $id == o.PartId && $n == o.ActualCount && o.ActualCount != 0 && o.Version != nil && $v == *o.Version
+//@ effect[C08:registry-row-deleted-only-when-unreferenced] every partGC.partRegistryRepository.DeleteByPartId(_, _, $id, $v)
+//@     where $id == o.PartId && o.ActualCount == 0 && o.Version != nil && $v == *o.Version
+//@ effect[C08:missing-row-restored-with-the-observed-count] every partGC.partRegistryRepository.RestoreMissing(_, _, $ref)
+//@     where $ref.PartId == o.PartId && $ref.Delta == o.ActualCount && o.Version == nil
